@@ -101,7 +101,7 @@ def mk_case(cls, top, init, steps, tags=(), extra_u=()):
         else:
             vs = [n.swapcase()]       # a different node for the identity normaliser
         for v in vs:
-            if v not in U and len(U) < 12:
+            if v not in U and len(U) < 10:
                 U.append(v)
     if "zz9" not in U:
         U.append("zz9")
@@ -177,7 +177,7 @@ FAULTS = ["unknown_parent", "cycle", "self_parent", "redundant_old", "redundant_
 def respell(rng, cls, n):
     if cls == "multi":
         return n
-    return rng.choice([n, n, n.upper(), n.capitalize(), n.lower(), n.swapcase()])
+    return rng.choice([n, n, n.upper(), n.capitalize(), n.lower()])
 
 
 def gen_batch(rng, cls, nv, pool, fault=None):
@@ -285,7 +285,7 @@ def gen_history(rng, cls=None):
     nf = nf_of(cls)
     top = "*top*" if cls == "semi" else rng.choice(["top", "top", "*top*", "Top", "T"])
     nv = Naive(top, nf)
-    pool = list(POOLS[cls])
+    pool = rng.sample(POOLS[cls], rng.choice([5, 6, 7]))
     tags = []
     init = None
     if cls != "semi" and rng.random() < 0.5:
@@ -634,10 +634,31 @@ def check_observation(case, o, fail):
                     fail("subsumes is not transitive", (a, b, c))
 
 
+def normalised_case(case):
+    """the same history with every identifier written in its normal form"""
+    nf = nf_of(case["cls"])
+
+    def nspec(p):
+        if "s" in p:
+            return S(nf(uncps(p["s"])))       # lower() leaves the separators alone
+        return T(*[nf(x) for x in spec_names(p)])
+
+    def nstep(st):
+        if st is None:
+            return None
+        if st["k"] == "set":
+            return setitem(nf(uncps(st["id"])), st["val"])
+        return {"k": "update",
+                "sub": None if st["sub"] is None else [[cps(nf(uncps(i))), nspec(p)] for i, p in st["sub"]],
+                "data": None if st["data"] is None else [[cps(nf(uncps(i))), v] for i, v in st["data"]]}
+    return dict(case, top=cps(nf(uncps(case["top"]))), init=nstep(case.get("init")),
+                steps=[nstep(st) for st in case["steps"]])
+
+
 class C17(Check):
     pid = "C17"
-    quick_cases = 1100
-    thorough_cases = 30000
+    quick_cases = 900
+    thorough_cases = 15000
     rule = ("histories of 0-8 update/__setitem__ calls on MultiHierarchy (identity normaliser), tfs.TypeHierarchy and "
             "semi's hierarchy (str.lower) over <= 12 names incl. mixed-case spellings, '' and 'a b' (tuple only); batches "
             "of 1-6 entries, parents as strings (random Unicode-whitespace separators) or tuples; every documented "
@@ -702,7 +723,19 @@ class C17(Check):
                 if o["_state"] != res[k - 1]["_state"]:
                     diff = [key for key in o["_state"] if o["_state"][key] != res[k - 1]["_state"][key]]
                     fail("a rejected call changed the stored state", diff)
+            nodes = {uncps(k) for k, _ in o["_state"]["hier"]}
+            stray = [uncps(k) for k, _ in o["_state"]["data"] if uncps(k) not in nodes]
+            if stray:
+                fail("data is stored for an identifier that is no node", stray)
             check_observation(case, o, fail)
+        if case["cls"] != "multi":
+            nc = normalised_case(case)
+            if nc != case:
+                res2 = run_history(nc)
+                if res2 != res:
+                    k = next((i for i, (x, y) in enumerate(zip(res, res2)) if x != y), min(len(res), len(res2)))
+                    mk(k)("the same history written in normal-form spellings gives different answers",
+                          [key for key in (res[k] if k < len(res) else {}) if k >= len(res2) or res[k][key] != res2[k].get(key)])
         return fails
 
     def classify(self, case, failure):
